@@ -196,6 +196,14 @@ fn end(name: &str) -> Event<'_> {
 }
 
 /// text event
+///
+/// `escape` leaves U+000D alone, but every conforming XML reader turns a literal CR (or CRLF)
+/// into LF (XML 1.0, 2.11): a carriage return only survives as a character reference.
 fn text(content: &str) -> Event<'_> {
-    Event::Text(BytesText::new(content))
+    let escaped = quick_xml::escape::escape(content);
+    if escaped.contains('\r') {
+        Event::Text(BytesText::from_escaped(escaped.replace('\r', "&#13;")))
+    } else {
+        Event::Text(BytesText::from_escaped(escaped))
+    }
 }
